@@ -199,13 +199,15 @@ Fixpoint index_of (s : list Z) (l : list (list Z)) (i : Z) : option Z :=
 Definition labels_z : list (list Z) := map zs c14_labels.
 Definition label_index (s : list Z) : option Z := index_of s labels_z 0.
 
-(* Component.subtype: detailed_names[1] when there is exactly one internal hit *)
-Definition sub_code (h : hmm) : Z :=
-  match h_ih h with
-  | [x] => if seqb (h_id x) (zs "Trans-AT-KS") then 1
-           else if seqb (h_id x) (zs "Iterative-KS") then 2 else 3
-  | _ => 0
-  end.
+(* the subtype hits of a domain as the C14 model carries them (HMMResult.internal_hits as a forest of name
+   codes: 1 Trans-AT-KS, 2 Iterative-KS, 3 any other name); Component.subtype / detailed_names are modelled
+   there (C14.Model.subtype) *)
+Definition name_code (s : list Z) : Z :=
+  if seqb s (zs "Trans-AT-KS") then C14.Model.S_Trans_AT_KS
+  else if seqb s (zs "Iterative-KS") then C14.Model.S_Iterative_KS else 3.
+Fixpoint hit_code (h : hmm) : C14.Model.hit :=
+  match h with HMM hid _ _ _ _ ih => C14.Model.Hit (name_code hid) (map hit_code ih) end.
+Definition sub_code (h : hmm) : list C14.Model.hit := map hit_code (h_ih h).
 
 Record component := mkComponent { co_dom : hmm; co_locus : list Z; co_c14 : C14.Model.comp }.
 
